@@ -31,28 +31,38 @@ Record linv (e : ep) : Prop := mkLinv {
   l_open : e_rs e <> RClosed -> e_pend e = 0 /\ e_reg e = true /\ e_sess e = true /\ e_cleanups e = 0 /\ e_lost e = 0;
   l_done : e_rs e = RClosed ->
            (e_reg e = true /\ e_sess e = true /\ e_cleanups e = 0 /\ e_lost e = 0 /\ 1 <= e_pend e) \/
-           (e_reg e = false /\ e_sess e = false /\ e_cleanups e = 1 /\ e_lost e = 1)
+           (e_reg e = false /\ e_sess e = false /\ e_cleanups e = 1 /\ e_lost e = 1);
+  l_csbuf : e_ss e = SClosed -> e_sbuf e = 0
 }.
 
 (* what an endpoint action does, as seen from the other side; dn / an / gotc describe the packet it
    consumed (data bytes, window credit, CLOSE) *)
-Record delta (e e' : ep) (o : list ppkt) (dn an : nat) (gotc : bool) : Prop := mkDelta {
-  d_inv : linv e -> linv e';
+Record delta_facts (e e' : ep) (o : list ppkt) (dn an : nat) (gotc : bool) : Prop := mkDelta {
+  d_inv : linv e';
   d_send : e_swin e' + din o = e_swin e + an;
-  d_recv : linv e -> dn + e_rbuf e <= e_rwin e -> e_schan e' = true ->
+  d_recv : dn + e_rbuf e <= e_rwin e -> e_schan e' = true ->
            e_rwin e' + e_rbuf e + dn = e_rwin e + e_rbuf e' + ain o;
   d_close : hasc o = negb (is_sclosed (e_ss e)) && is_sclosed (e_ss e');
   d_mono : e_ss e = SClosed -> e_ss e' = SClosed;
   d_rs : rs_closedish (e_rs e) || gotc = true -> rs_closedish (e_rs e') = true;
   d_init : e_init e' = e_init e
 }.
+Definition delta (e e' : ep) (o : list ppkt) (dn an : nat) (gotc : bool) : Prop :=
+  linv e -> delta_facts e e' o dn an gotc.
 
+(* evaluation by cases: split on a variable that blocks a match; when there is none, on a boolean test *)
 Ltac csplit :=
   repeat (cbn;
-          match goal with
-          | |- context [match ?d with _ => _ end] =>
-              first [ is_var d; destruct d | destruct d eqn:? ]
-          end).
+          first [ match goal with
+                  | |- context [match ?d with _ => _ end] => is_var d; destruct d
+                  end
+                | match goal with
+                  | |- context [if ?d then _ else _] =>
+                      lazymatch d with
+                      | context [match _ with _ => _ end] => fail
+                      | _ => destruct d eqn:?
+                      end
+                  end ]).
 
 Ltac lsolve :=
   cbn in *; intros;
@@ -64,15 +74,33 @@ Ltac lsolve :=
          | H : (_ =? _) = false |- _ => apply Nat.eqb_neq in H
          | H : (_ && _) = true |- _ => apply andb_true_iff in H
          | H : (_ && _) = false |- _ => apply andb_false_iff in H
+         | H : (_ || _) = true |- _ => apply orb_true_iff in H
          | H : negb _ = true |- _ => apply Bool.negb_true_iff in H
          | H : negb _ = false |- _ => apply Bool.negb_false_iff in H
          end;
-  first [ discriminate | congruence | lia | tauto | solve [intuition (try congruence; try lia)] ].
+  first [ discriminate | congruence | lia | tauto
+        | solve [intuition (try discriminate; try congruence; try lia)]
+        | solve [ repeat match goal with
+                         | x : sstate |- _ => destruct x
+                         | x : rstate |- _ => destruct x
+                         end; cbn in *;
+                  first [ discriminate | congruence | lia | tauto
+                        | solve [intuition (try discriminate; try congruence; try lia)] ] ] ].
 
 Ltac dfin :=
-  constructor;
-  [ intros [H1 H2 H3 H4 H5 H6 H7 H8 H9 H10 H11]; cbn in *; constructor; lsolve
-  | lsolve | lsolve | lsolve | lsolve | lsolve | lsolve ].
+  intros [H1 H2 H3 H4 H5 H6 H7 H8 H9 H10 H11 H12]; cbn in *;
+  constructor; [ constructor; lsolve | lsolve | lsolve | lsolve | lsolve | lsolve | lsolve ].
 
 Lemma close_send_delta e : let '(e', o) := close_send e in delta e e' o 0 0 false.
-Proof. destruct e; unfold close_send, emit; csplit; dfin. Qed.
+Proof. destruct e; unfold delta, close_send, emit; csplit; dfin. Qed.
+
+Ltac bf := csplit; dfin.
+Lemma flush_delta e : let '(e', o) := flush e in delta e e' o 0 0 false.
+Proof. destruct e; unfold delta, flush, close_send, emit, w_ss. Time bf. Qed.
+
+Lemma flush_recv_delta e : let '(e', o) := flush_recv e in delta e e' o 0 0 false.
+Proof. destruct e; unfold delta, flush_recv, deliver, write_eof, flush, close_send, emit, w_ss. csplit.
+  all: intros [H1 H2 H3 H4 H5 H6 H7 H8 H9 H10 H11 H12]; cbn in *; constructor; [constructor|..].
+  all: try lsolve.
+  Show.
+Qed.
